@@ -56,7 +56,7 @@ CLAIMS['C04'] = dict(
           'compile-fail witnesses for privacy and const handles), deep write-freedom of every const member / const-reference function, '
           'no bitwise copies of owner objects, the mutator allow-list of ST::string, and read-before-write ordering for raw pointer / '
           'view arguments (self-reference). With C05\'s inductive exclusive-ownership invariant this proves that reads never mutate and '
-          'no two live strings share storage, for all operation sequences.'),
+          'no two live strings share storage, for all operation sequences. R04.9: the owner invariant of ST::buffer<char> (pointer and size class agree, long contents in an exclusively owned block) is established for every member that leaves a value behind, by the owner analysis shared with C05.'),
     note=('relative to: clang-14 lowering, effect summaries by pointer provenance (model of externals by declared const-ness), C05; '
           'that returned VALUES are the right bytes is the subject of C07-C09, not of this check'),
     technique='static analysis: effect summaries + IR encapsulation rules + CFG event ordering + compile-fail witnesses')
@@ -75,7 +75,7 @@ CLAIMS['C01'] = dict(
           '(and of the Latin-1 loops) is compared bit for bit with Unicode Table 3-6 / 3-5, per value class, the class boundaries being '
           'read off the path conditions; an SSA dataflow rule shows the decoded value reaches the target encoder unmodified in each of the '
           '12 convert loops; the forwarding overloads hand on the (pointer,size) of their own argument. With C03 (unit-exact loops) and '
-          'C02 (mode independence on well-formed classes) this gives the standard encoding of the same scalars for any chain of conversions.'),
+          'C02 (mode independence on well-formed classes) this gives the standard encoding of the same scalars for any chain of conversions. R01.4 also holds the accept-class obligations of every converter (each class of well-formed or tolerated units is accepted in every mode and advances the output alike), shared with C02.'),
     note=('relative to: clang-14 lowering, STIR + bit-provenance evaluator, the transcribed tables; 32-bit wchar_t only; ST::string members and '
           'literal operators are covered as forwarders of the st_utf_conv.h entry points through C03 R03.3/R03.5, not re-derived here'),
     technique='static analysis: abstract interpretation with a bit-provenance domain vs the Unicode encoding tables; SSA dataflow; call-graph forwarding')
@@ -138,7 +138,7 @@ CLAIMS['C06'] = dict(
           'buffer<T> types (small and large operands) and less_i / equal_i (core on (data,size) of both operands, right predicate, null '
           'pointer = empty, no read past a C string\'s NUL; an equality that bypasses the ordering core must reject different sizes and '
           'otherwise compare exactly size() units of both storages) are checked by interpretation; no comparison / search member hands the string to a '
-          'C primitive that stops at the first NUL (strcmp family; expected-zero rule with a positive control).'),
+          'C primitive that stops at the first NUL (strcmp family; expected-zero rule with a positive control). Every library routine reachable from the compare family that orders units after a fold orders them after the same fold as the core (R06.8: units folded by the other map must not reach a subtraction or an ordering comparison; witness \'_\' against \'x\').'),
     note=('relative to: clang-14 lowering, STIR, std::char_traits<T>::compare being unsigned lexicographic (libstdc++); antisymmetry and '
           'transitivity follow from the lexicographic structure and are not mechanised separately; hash equality for equal strings follows from '
           'hash being a function of the bytes [0,size) only (C04/C20 effects)'),
@@ -185,7 +185,7 @@ CLAIMS['C15'] = dict(
           'stored and the implied length is returned; stores are contiguous from the output cursor and inside the buffer, reads inside the '
           'string (affine cursor relations inferred and verified, facts combined by elimination). For hex this is complete. For base64 the '
           'placement of the tail group (that it is the last four characters) needs a divisibility argument outside the domains: its accesses '
-          'are reported undecided - hence level "other", not proof.'),
+          'are reported undecided - hence level "other", not proof. R15.5: b64_decode is interpreted exactly on one- and two-group inputs constrained by twenty digit / \'=\' patterns - the three well-formed endings return the decoded length, every other placement of \'=\' returns -1 on every path (state carried between groups shows on the two-group patterns).'),
     note=('relative to: clang-14 lowering, STIR, C14 R14.1 for what the tables accept; base64 tail bounds undecided (stated in DESIGN.md and '
           'in the evidence as `undecided`)'),
     technique='static analysis: abstract interpretation with oracle byte classes, sign-test dominance, inferred affine loop invariants, witness search')
